@@ -567,6 +567,7 @@ var c28Known = []c28Sig{
 		[]string{"expand.(*Config).varInd", "expand.(*Config).assignElem", "interp.(*Runner).assignVal"}},
 	{"C28-preinc-postinc", regexp.MustCompile(`interface conversion: syntax\.ArithmExpr is \*syntax\.UnaryArithm, not \*syntax\.Word`), []string{"expand.Arithm"}, nil},
 	{"C28-test-nonword-operand", regexp.MustCompile(`interface conversion: syntax\.TestExpr is \*syntax\.\w+, not \*syntax\.Word`), []string{"interp.(*Runner).bashTest"}, nil},
+	{"C28-nul-byte-quote", regexp.MustCompile(`cannot quote character at byte \d+: shell strings cannot contain null bytes`), nil, nil},
 	{"C28-extglob-unterminated", regexp.MustCompile(`regexp: Compile\(.*\\x00`), nil, nil},
 	{"C28-params-o-nil-stdout", regexp.MustCompile(`nil pointer dereference`), []string{"interp.(*Runner).outf"}, []string{"interp.Params", "interp.New"}},
 }
